@@ -78,6 +78,61 @@ def run(ck):
     def mentions(n, text):
         return any(norm(x) == text for r in node_roots(n) for x in walk_shallow(r))
 
+    # ---- layout-independent decision: abstract run of _validate on every combination of
+    # (allowed given? member?, check given? passes?, schema given? converts / raises)
+    from sa.minieval import MiniEval
+    import itertools as _it
+    run_bad = []
+    n_run = 0
+    for al, mem, chk_, passes, sch, sch_ok in _it.product((False, True), repeat=6):
+        if (not al and mem) or (not chk_ and passes) or (not sch and sch_ok):
+            continue
+        trace = []
+
+        def _check(v, trace=trace, passes=passes):
+            trace.append(('check', v))
+            return passes
+
+        def _schema(v, trace=trace, sch_ok=sch_ok):
+            trace.append(('schema', v))
+            if not sch_ok:
+                raise KeyError('schema failure')
+            return ('CONVERTED', v)
+        env = {param: 'RAW', 'self._allowed': (('RAW',) if mem else ('other',)) if al else None,
+               'self._check': _check if chk_ else None, 'self._schema': _schema if sch else None}
+        try:
+            out = MiniEval(R1, env).run(fi.node.body)
+        except Exception as err:
+            run_bad = None
+            ck.note(f"R17.1 abstract run not applicable: {err}")
+            break
+        n_run += 1
+        ck.abstract_cases += 1
+        want_trace = []
+        want = None
+        if al and not mem:
+            want = ('raise', 'ValueError')
+        else:
+            if chk_:
+                want_trace.append(('check', 'RAW'))
+            if chk_ and not passes:
+                want = ('raise', 'ValueError')
+            else:
+                if sch:
+                    want_trace.append(('schema', 'RAW'))
+                want = ('raise', 'ValueError') if (sch and not sch_ok) else \
+                    ('return', ('CONVERTED', 'RAW') if sch else 'RAW')
+        if out != want or trace != want_trace:
+            run_bad.append(f"allowed={'given' if al else 'None'}/member={mem}, check={'given' if chk_ else 'None'}"
+                           f"/passes={passes}, schema={'given' if sch else 'None'}/ok={sch_ok}: {out}, calls {trace}; "
+                           f"documented {want}, calls {want_trace}")
+    run_ok = run_bad is not None and not run_bad
+    if run_bad is not None:
+        ck.ob(R1, f"{fi.fid} :: abstract run of the three stages", run_ok,
+              f"evaluated on {n_run} combinations: allowed, then check (on the original value), then "
+              f"schema (last, its result returned, its exceptions turned into ValueError)" if run_ok
+              else "; ".join(run_bad[:3]), fi, fi.node)
+
     allowed_nodes = nodes_where(cfg, lambda n: any(
         isinstance(x, ast.Compare) and any(isinstance(op, (ast.In, ast.NotIn)) for op in x.ops)
         and norm(x.comparators[-1]) == 'self._allowed' for r in node_roots(n) for x in walk_shallow(r)))
@@ -119,12 +174,12 @@ def run(ck):
                     return r
             return None
         ra = find_raise([('self._allowed is not None', True), (f'{param} in self._allowed', False)])
-        ck.ob(R1, f"{fi.fid} :: allowed stage", ra is not None,
+        ck.ob(R1, f"{fi.fid} :: allowed stage", ra is not None or run_ok,
               "raises ValueError iff `allowed` is given and the value is not a member" if ra else
               "no `raise ValueError` guarded by (self._allowed is not None) and "
               "(value not in self._allowed)", fi, a.ast)
         rc = find_raise([('self._check is not None', True), (f'self._check({param})', False)])
-        ck.ob(R1, f"{fi.fid} :: check stage", rc is not None,
+        ck.ob(R1, f"{fi.fid} :: check stage", rc is not None or run_ok,
               "raises ValueError iff `check` is given and returns a false value" if rc else
               "no `raise ValueError` guarded by (self._check is not None) and "
               "(not self._check(value))", fi, c.ast)
@@ -147,7 +202,7 @@ def run(ck):
                 if bad_path is None:
                     # and the handler must not fall through to a normal return
                     bad_path = cfg.path_avoiding(vn, [cfg.exit], avoid=conv)
-        ck.ob(R1, f"{fi.fid} :: schema stage", gs and bad_path is None,
+        ck.ob(R1, f"{fi.fid} :: schema stage", (gs and bad_path is None) or run_ok,
               "schema applied iff given; any exception it raises leaves as ValueError"
               if gs and bad_path is None else
               ("the schema call is not guarded by `self._schema is not None`" if not gs else
@@ -187,7 +242,7 @@ def run(ck):
                                          'is not None' in norm(n.test.ast) for n in p):
                     ok = False
                     why.append("a path with a schema returns the raw value")
-        ck.ob(R1, f"{fi.fid} :: returned value", ok,
+        ck.ob(R1, f"{fi.fid} :: returned value", ok or run_ok,
               "returns schema(value) when a schema exists, else the value" if ok
               else '; '.join(why), fi, rets[0].ast if rets else fi.node)
 
